@@ -3,7 +3,7 @@
    blob/packer.rs (BasicPacker/RawPacker) and commands/repair/index.rs; the constants come
    from Extracted.v, regenerated from the source on every run. *)
 From Verif.Base Require Import Tactics.
-From Verif.C08 Require Import Extracted Model Spec ProofsCodec ProofsPacker ProofsFromFile ProofsRebuild Repack ProofsRepack.
+From Verif.C08 Require Import Extracted Model Spec ProofsCodec ProofsPacker ProofsFromFile ProofsRebuild Repack ProofsRepack Writer ProofsWriter.
 Local Open Scope N_scope.
 
 (* Parsing the binary header of any list of index blobs gives the same blobs back, with the
@@ -117,6 +117,32 @@ Theorem repack_across_packs_refuted :
     ~ Forall2 (fun e h => expected_of store (fun d _ => Some d) e = Some h) es out.
 Proof. exact repack_across_packs_refuted_lemma. Qed.
 Print Assumptions repack_across_packs_refuted.
+
+(* The file-writer actor: every pack is stored under hash(file bytes) (SHA-256 in the code; any
+   function here), and the IndexPack handed to the indexer carries that same id, the packer's blob
+   list unchanged, a time, and no explicit size - in the order the packs were emitted. *)
+Theorem pack_id_is_hash_of_file : forall (hash : bytes -> id) (clock : nat -> Z) (packs : list (bytes * list iblob)),
+  let r := writer_run hash clock packs in
+  fst r = map (fun p => (hash (fst p), fst p)) packs /\
+  map wkey (snd r) = map (fun p => (hash (fst p), snd p)) packs /\
+  Forall (fun w => w_time w <> None /\ w_size w = None) (snd r).
+Proof. exact pack_id_is_hash_of_file_lemma. Qed.
+Print Assumptions pack_id_is_hash_of_file.
+
+(* Composition (packer + writer + repair-index): for every op sequence and save oracle, whatever
+   the run leaves in the backend `be` and the index `ix`, if the hash does not collide on the
+   written files, then from ANY subset `index` of the written index entries repair-index rebuilds,
+   up to order, exactly the written index (ids and blob lists). *)
+Theorem written_repo_index_rebuildable : forall (enc : bytes -> bytes) (dec : bytes -> option bytes)
+    (hash : bytes -> id) clock tpe ops be ix index read_all,
+  (forall x, dec (enc x) = Some x) -> (forall x, length (enc x) = (length x + 32)%nat) ->
+  Forall wf_op ops ->
+  packer_with_writer enc hash clock tpe ops = Ok (be, ix) ->
+  (forall p q, In p be -> In q be -> fst p = fst q -> snd p = snd q) ->
+  incl index (map wkey ix) ->
+  exists r, rebuild_index dec read_all be index = Ok r /\ Permutation r (map wkey ix).
+Proof. exact (fun enc dec hash clock tpe ops be ix index ra H1 H2 => written_repo_rebuildable_lemma enc dec H1 H2 hash clock tpe ops be ix index ra). Qed.
+Print Assumptions written_repo_index_rebuildable.
 
 (* PackHeader::from_file on a 3-byte file without size hint (what repair-index does for a
    truncated, unindexed pack): `pack_size - read_size` underflows; and a length field >= 2^32-4
